@@ -251,8 +251,21 @@ func (m *Mutex) TryLock() bool { return m.m.TryLock() }
 // ---- RWMutex ----
 
 type RWMutex struct {
-	m sync.RWMutex
-	// writerWaiting mirrors Go's writer preference only for real-thread runs; the controller models plain RW exclusion
+	m       sync.RWMutex
+	pmu     sync.Mutex
+	pending int // Par threads blocked in Lock: like Go's RWMutex, new readers wait behind them
+}
+
+func (m *RWMutex) pend(d int) {
+	m.pmu.Lock()
+	m.pending += d
+	m.pmu.Unlock()
+}
+
+func (m *RWMutex) npending() int {
+	m.pmu.Lock()
+	defer m.pmu.Unlock()
+	return m.pending
 }
 
 func (m *RWMutex) Lock() {
@@ -262,7 +275,12 @@ func (m *RWMutex) Lock() {
 		m.m.Lock()
 		return
 	}
+	pended := false
 	for !m.m.TryLock() {
+		if !pended {
+			m.pend(1)
+			pended = true
+		}
 		block(t, func() bool {
 			if m.m.TryLock() {
 				m.m.Unlock()
@@ -270,6 +288,9 @@ func (m *RWMutex) Lock() {
 			}
 			return false
 		})
+	}
+	if pended {
+		m.pend(-1)
 	}
 }
 func (m *RWMutex) Unlock() { point(); m.m.Unlock() }
@@ -280,8 +301,11 @@ func (m *RWMutex) RLock() {
 		m.m.RLock()
 		return
 	}
-	for !m.m.TryRLock() {
+	for m.npending() > 0 || !m.m.TryRLock() {
 		block(t, func() bool {
+			if m.npending() > 0 {
+				return false
+			}
 			if m.m.TryRLock() {
 				m.m.RUnlock()
 				return true
